@@ -157,6 +157,66 @@ func TestC17_Identities(t *testing.T) {
 			name = "liststar-vs-map"
 		case 3, 4: // X[?c].e == X[?c] | [*].e ; X[].e ; X[s:t:u].e
 			p := gen.Pick(t, "proj", projKinds[1:])
+			if rapid.IntRange(0, 3).Draw(t, "faultycond") == 0 {
+				// a homogeneous array with nulls sprinkled in, and a condition
+				// (or selector) that fails on null but on no other element: the
+				// fused and the unfused spelling must then fail alike
+				kind := rapid.IntRange(0, 3).Draw(t, "elemkind")
+				n := rapid.IntRange(1, 5).Draw(t, "nelem")
+				arr := make([]jv.Val, n)
+				for i := range arr {
+					switch {
+					case rapid.IntRange(0, 3).Draw(t, "isnull") == 0:
+						arr[i] = jv.VNull()
+					case kind == 0:
+						arr[i] = jv.VStr(gen.Str(t))
+					case kind == 1:
+						arr[i] = jv.VInt(int64(rapid.IntRange(-3, 9).Draw(t, "num")))
+					case kind == 2:
+						arr[i] = jv.VObj([]jv.Member{{K: "name", V: jv.VStr(gen.Str(t))}, {K: "tags", V: jv.VArr([]jv.Val{jv.VStr("p"), jv.VInt(int64(i))})}})
+					default:
+						arr[i] = jv.VArr([]jv.Val{jv.VInt(int64(i)), jv.VStr("q")})
+					}
+				}
+				conds := [][]string{
+					{"length(@) > `1`", "starts_with(@, 'a')", "contains(@, 'a')", "upper(@) == @", "@ < 'b'"},
+					{"abs(@) > `1`", "@ + `1` > `2`", "ceil(@) == @", "-@ < `0`", "@ > `2`"},
+					{"length(name) > `2`", "starts_with(name, 'a')", "length(@) == `2`", "keys(@)[0] == 'name'", "tags[1] > `0`"},
+					{"length(@) > `1`", "[0] > `0`", "contains(@, 'q')", "reverse(@)[0] == 'q'", "sum([@[0]]) > `1`"},
+				}[kind]
+				sels := [][]string{{"[@]", "{k: @}", "[length(@)]"}, {"[@]", "[abs(@)]", "{k: @}"}, {"tags[0]", "name", "[length(name)]", "tags"}, {"[0]", "[@]", "[length(@)]"}}[kind]
+				cp := ast.Parse(gen.Pick(t, "faulty", conds))
+				selText := gen.Pick(t, "faultysel", sels)
+				if selText == "[0]" {
+					selText = "@" + selText // an index, not a multi-select
+				} else {
+					selText = "@." + selText
+				}
+				sp := ast.Parse(selText)
+				if cp.Verdict != ast.In || sp.Verdict != ast.In {
+					t.Fatalf("HARNESS-BUG: palette expression does not parse: %s %s", cp.Reason, sp.Reason)
+				}
+				doc = jv.VObj([]jv.Member{{K: "x", V: jv.VArr(arr)}})
+				X = ast.F("x")
+				xv = model.EvalAt(X, doc, doc)
+				sel := sp.Expr.(*ast.Chain).Steps
+				var proj ast.Step
+				switch rapid.IntRange(0, 2).Draw(t, "faultyproj") {
+				case 0:
+					proj = ast.Step{Kind: ast.SFilter, Cond: cp.Expr}
+				case 1:
+					proj = ast.Step{Kind: ast.SFilter, Cond: ast.Bin("||", cp.Expr, ast.Lit(jv.VBool(true)))}
+				default:
+					proj = gen.Pick(t, "plainproj", []ast.Step{{Kind: ast.SListStar}, {Kind: ast.SFlatten}, {Kind: ast.SSlice, Start: ast.I64(0)}})
+				}
+				lhs = X.With(append([]ast.Step{proj}, sel...)...)
+				rhs = pipeStar(X.With(proj), sel...)
+				if rapid.Bool().Draw(t, "parenform") {
+					rhs = ast.Paren(X.With(proj)).With(append([]ast.Step{{Kind: ast.SListStar}}, sel...)...)
+				}
+				name = "projection-vs-unprojected-pipe"
+				break
+			}
 			st, ok := asSteps(eExpr)
 			if !ok {
 				c.Skip("e-not-a-subexpression")
